@@ -56,7 +56,7 @@ def apply_faults(U, letters, layout, faults, infs=()):
     next_id = len(rows)
     for f in faults:
         k = f["kind"]
-        if not rows and k in ("drop_row", "dup_row", "relabel", "blank", "relabel_known", "swap_labels"):
+        if not rows and k in ("drop_row", "dup_row", "relabel", "blank", "blank_label", "relabel_known", "swap_labels"):
             continue
         i = f["pos"] % max(1, len(rows))
         if k == "drop_row":
@@ -98,6 +98,13 @@ def apply_faults(U, letters, layout, faults, infs=()):
                 a, b = rows[i][0][0][l], rows[j][0][0][l]
                 rows[i] = [(dict(lab, **{l: b}), v) for lab, v in rows[i]]
                 rows[j] = [(dict(lab, **{l: a}), v) for lab, v in rows[j]] if j != i else rows[i]
+        elif k == "blank_label":
+            # an empty cell in a DIMENSION column: a label that is no item of the dimension
+            cand = [l for l in letters if l != wide and l not in lay.get("drop_single", [])]
+            if not cand or not rows[i]:
+                continue
+            l = cand[f["dim"] % len(cand)]
+            rows[i] = [(dict(lab, **{l: None}), v) for lab, v in rows[i]]
         elif k == "blank":
             if not rows[i]:
                 continue
@@ -251,6 +258,9 @@ def run_fault_case(desc, weak_only=False):
         its = build.uitems(U)
         if not all({lab[l] for lab, _ in records} == set(its[l]) for l in letters):
             verdict, detail = "unasserted", "item-identified column does not hold exactly the dimension's items"
+    if ae and any(lab.get(l) is None for lab, _ in records for l in letters):
+        # an empty label is "unknown to the dimension"; whether allow_extra_values lets such a row pass is not stated
+        verdict, detail = "unasserted", "empty label cell under allow_extra_values"
     if unasserted and am:
         verdict, detail = "unasserted", "dropped item column of a wide frame under allow_missing_values"
     elif unasserted:
@@ -301,7 +311,7 @@ def run_fault_case(desc, weak_only=False):
     return {"nontrivial": bool(desc["faults"]) and (pos_late or bool(layout.get("wide")) or len(desc["faults"]) >= 2), "classes": cl}
 
 
-FAULT_KINDS = ["drop_row", "dup_row", "relabel", "blank", "drop_dimcol", "junk_cols", "wide_relabel", "wide_drop", "relabel_known", "swap_labels"]
+FAULT_KINDS = ["drop_row", "dup_row", "relabel", "blank", "drop_dimcol", "junk_cols", "wide_relabel", "wide_drop", "relabel_known", "swap_labels", "blank_label", "blank_label"]
 
 
 @st.composite
